@@ -88,19 +88,33 @@ def run_model_parallel(model, lines, jobs=4):
     return out
 
 
+def kind_of(v):
+    """short stable kind of an engine observation that differs from the model's"""
+    if v.startswith(INFRA):
+        return v.split()[0]
+    if v.startswith('OK'):
+        return 'value'
+    w = v.split()
+    if w[0] == 'CRASH':
+        k = 'CRASH-' + (w[1].replace('=', '') if len(w) > 1 else '')
+        if 'msg=' in v:
+            m = v.split('msg=', 1)[1].split()
+            if m[:5] == ['Fatal', 'failure', 'in', 'matching', 'insn:'] and len(m) > 5:
+                k = 'CRASH-nomatch-' + m[5]
+            elif m:
+                k += '-' + '-'.join(x for x in m[:4] if x.isalpha())
+        return k
+    return w[0]
+
+
 def classify(model_obs, eng):
-    """'' if all engines agree with the model; else a short category"""
+    """'' if all engines agree with the model; else a short category 'engine:kind ...'"""
     cats = []
     for k in sorted(eng):
         v = eng[k]
         if v == model_obs:
             continue
-        if v.startswith(INFRA):
-            cats.append(k + ':' + v.split()[0])
-        elif v.startswith('OK'):
-            cats.append(k + ':value')
-        else:
-            cats.append(k + ':' + v.split()[0])
+        cats.append(k + ':' + kind_of(v))
     return ' '.join(cats)
 
 
@@ -133,7 +147,7 @@ def shrink_prog(prog, impl, model, opnum, engines, want, max_steps=250):
     for it in prog.items:
         if it[0] == 'func':
             for i, ins in enumerate(it[1].body):
-                if ins.op != 'label':
+                if ins.op not in ('label', 'ret', 'jmpi'):   # every function keeps its labels, returns, indirect jumps
                     units.append((it[1].name, i))
     want_kind = set(c.split(':', 1)[1] for c in want.split())
 
@@ -313,6 +327,27 @@ def replay(chk, path):
     return 1 if cat and is_violation_cat(cat) else 0
 
 
+def save_corpus(dirname, name, prog, note=''):
+    opnum = opnum_table()
+    d = os.path.join(vlib.VERIF, 'corpus', dirname)
+    os.makedirs(d, exist_ok=True)
+    with open(os.path.join(d, name + '.json'), 'w') as f:
+        json.dump(dict(note=note, mir_text=prog.text(), model_line=prog.model_line(opnum, MODEL_FUEL),
+                       harness_line=prog.harness_line(ENGINES)), f, indent=1)
+
+
+if __name__ == '__main__' and sys.argv[1] == '--add-corpus':
+    # python3 checks/c01.py --add-corpus <dir> <name> <file.mir> [note]
+    prog = G.parse_text(open(sys.argv[4]).read())
+    save_corpus(sys.argv[2], sys.argv[3], prog, ' '.join(sys.argv[5:]))
+    impl, model = build()
+    mo = run_model(model, [prog.model_line(opnum_table(), MODEL_FUEL)])[0]
+    eng = run_impl(impl, [prog.harness_line(ENGINES)])[0]
+    print('model :', mo[:150])
+    for k in sorted(eng):
+        print('%-6s:' % k, eng[k][:150], '' if eng[k] == mo else '   <-- differs')
+    sys.exit(0)
+
 if __name__ == '__main__':
     # debugging aid: python3 checks/c01.py <seed> [shrink]
     seed = int(sys.argv[1])
@@ -332,4 +367,4 @@ if __name__ == '__main__':
         print('model :', mo)
         for k in sorted(eng):
             print('%-6s:' % k, eng[k])
-        open('/var/tmp/c01_last.json', 'w').write(json.dumps(replay_obj(s, opnum, ENGINES, mo, eng)))
+        open('/var/tmp/c01_last_%d.json' % seed, 'w').write(json.dumps(replay_obj(s, opnum, ENGINES, mo, eng)))
